@@ -16,43 +16,52 @@ import itertools
 
 from ..model import AnalysisError
 from ..symex import Symex, Obj
-from ..terms import T, sym, show, expand_products, is_num, subterms
+from ..terms import T, sym, show, expand_products, is_num, subterms, t_add
 from . import c08
 
 EXPLANATION = (
     "All rules evaluate the library functions abstractly (sa.symex); no rule compares source text, local names or "
-    "statement layout. R07a/R07b/R07c evaluate simplify.find_compatible_terms (with everything defined in simplify.py "
-    "evaluated through) on abstract terms with given index patterns, descriptions and targets; order_substitutions, "
-    ".subs, `X is S.Zero` and isinstance(.., Add) stay uninterpreted, so every combination of their answers is one path. "
-    "On every path: R07b - the index maps that are tried are exactly the admissible ones computed independently "
-    "(bijections other->term inside one (space, spin) class with equal index patterns, contracted onto contracted, a target "
-    "index only onto itself), and a pair of terms stays unmerged only if every admissible map was rejected; R07a - a map "
-    "is accepted only as the result of order_substitutions, only after isinstance(term.sympy -/+ "
-    "other_term.sympy.subs(<that map>), Add) was answered False, and only if the substituted other term was tested "
-    "against S.Zero and is not a spurious zero; a rejection needs `is Add` or a spurious zero; R07c - every term index "
-    "occurs exactly once in the result (as key or as matched term), only terms with equal prefilter class (descriptions "
-    "without prefactors, shared index subspaces, pattern sizes, target indices - stated independently) are compared "
-    "or merged, terms of one class are all compared, valid input never raises, non-Term input is refused; "
-    "simplify.simplify returns sum_keys t_i + sum_matched t_j.subs(accepted ordered map for (i, j)) with every term of "
-    "the *expanded* expression exactly once, returns the expression itself only if the expanded expression has one term, "
-    "and refuses non-Expr input. R07d: the substitution sites of simplify.py obey the ordered-substitution discipline "
-    "(R08a, owned by C08). R07e: Obj.description and Obj.crude_pos evaluated on a table of tensors (names, spaces, "
-    "exponents, target sets, bra-ket symmetry 0/+1/-1, both orientations): two objects / index positions get the same "
-    "fingerprint iff they agree in type, name, spaces, exponent, target names and - only without bra-ket symmetry - "
-    "upper/lower orientation (for +-1 the orientation must not matter), neighbour spaces and neighbour target names; "
-    "the include_exponent/include_target_idx switches remove exactly their component; Term.coupling equals the multiset "
-    "of positions of shared indices on the other objects for objects whose description is repeated; Term.pattern groups "
-    "by (space, spin), lists every index once and gives two indices the same pattern iff their multisets of (position, "
-    "coupling of the object) agree; with everything evaluated through, the pattern is equivariant under renaming of "
-    "contracted indices (including renamings that flip the canonical bra/ket orientation and reorder the objects).")
+    "statement layout. R07a/R07b/R07c evaluate simplify.find_compatible_terms (everything defined in simplify.py is "
+    "evaluated through, also nested and extracted helpers) on lists of abstract terms whose index patterns, object "
+    "descriptions and target indices are chosen by the rule; order_substitutions, .subs, `X is S.Zero` and "
+    "isinstance(.., Add) stay uninterpreted, so every combination of their answers is one path (the larger tables are "
+    "evaluated for non-vanishing substitutions only). On every path: R07b - the index maps that are tried are exactly "
+    "the admissible ones computed independently by brute force (bijections other->term inside one (space, spin) class "
+    "with equal index patterns, contracted onto contracted, a target index only onto itself; all spaces combined), and "
+    "two terms stay separate only if every admissible map was rejected; R07a - a map is accepted only as the result of "
+    "order_substitutions, only after isinstance(term.sympy -/+ other_term.sympy.subs(<that map>), Add) was answered "
+    "False, and only if a spurious zero (substituted term is S.Zero while the term is not) is refuted on the path; a "
+    "rejection needs `is a sum` or a spurious zero; R07c - every term index occurs exactly once in the result (as key "
+    "or as matched term), only terms of the same prefilter class (descriptions without prefactors, index subspaces "
+    "shared by two objects, pattern sizes, target indices - stated independently) are compared or merged, terms of "
+    "one class are all compared, fingerprints are requested with target names and exponents, valid input never raises, "
+    "non-Term input is refused; simplify.simplify (expanded and unexpanded abstract expressions) returns sum_keys t_i + "
+    "sum_matched t_j.subs(<ordered map accepted on this path for (i, j)>) with every term of the *expanded* expression "
+    "exactly once and coefficient one, returns the expression itself only if the expanded expression has one term, and "
+    "refuses non-Expr input with Inputerror. R07d: the substitution sites of simplify.py obey the ordered-substitution "
+    "discipline (R08a, owned by C08). R07e: Obj.description and Obj.crude_pos evaluated on a table of tensors (types, "
+    "names, spaces, exponents, target sets, bra-ket symmetry 0/+1/-1, both orientations; all four switch settings): "
+    "two objects / index positions get the same fingerprint iff they agree in type, name, spaces, exponent, target "
+    "names and - only without bra-ket symmetry - upper/lower orientation (for +-1 the orientation must not matter), "
+    "neighbour spaces and neighbour target names (partition equality, the strings themselves are not compared); "
+    "crude_pos lists every index once per occurrence; Term.coupling (objects with opaque fingerprints) equals the "
+    "multiset of positions of the shared indices on the other objects, for repeated descriptions only; Term.pattern "
+    "groups by (space, spin), lists every index once and gives two indices the same pattern iff their multisets of "
+    "(position, coupling of the object) agree, whatever the order of the objects; with everything evaluated through, "
+    "the pattern of a renamed term is the renamed pattern for renamings of contracted indices that flip the canonical "
+    "bra/ket orientation and reorder the objects (thorough: sweep over all renamings of a family of terms).")
 ASSUMPTIONS = [
     "completeness of the pattern fingerprints for arbitrary terms (that alpha-equivalent terms are always found) is "
     "decided only on the listed tables of small tensors/terms (bounded)",
-    "sympy semantics of .subs, Add, S.Zero and of the canonical ordering inside AntiSymmetricTensor are modelled, not "
-    "analysed: indices of a tensor sorted per upper/lower part, parts swapped for bra-ket (anti)symmetric tensors",
+    "sympy semantics of .subs, Add, S.Zero and the canonical form of AntiSymmetricTensor are modelled, not analysed: "
+    "indices sorted per upper/lower part, parts swapped by space, then name, for bra-ket (anti)symmetric tensors; spin "
+    "is left empty in all tables",
     "that `term - substituted_other is not an Add` implies proportionality of the two terms is sympy behaviour (assumed)",
-    "assumptions/target indices of the returned Expr are carried by Container.__radd__/__iadd__ (C01 territory), not "
-    "visible in the evaluated sum",
+    "assumptions/target indices of the returned Expr are carried by Container.__radd__/__iadd__ and are not visible "
+    "in the evaluated sum",
+    "the `length` component of the prefilter key is implied by the tuple of descriptions and is not checked separately; "
+    "which term of a class becomes the key and the order in which maps are tried are not prescribed",
+    "find_compatible_terms / simplify are evaluated for at most five terms and 24 maps per pair (bounded)",
 ]
 
 FCT = "simplify:find_compatible_terms"
@@ -109,7 +118,8 @@ def build_terms(w, specs, prefix="t"):
             base = Obj(None, f"{prefix}{k}.b{n}")
             base.attrs.update(_classes=set(_CLS[cl]), upper=w.tup(up), lower=w.tup(lo), name=descr, idx=w.tup(up + lo))
             o = Obj("expr_container:Obj", f"{prefix}{k}.o{n}")
-            o.attrs.update(_descr=descr, base=base, idx=w.tup(up + lo), term=t, exponent=1, name=descr)
+            o.attrs.update(_descr=descr, base=base, idx=w.tup(up + lo), term=t, exponent=1, name=descr,
+                           type_as_str={"anti": "antisymtensor", "nonsym": "nonsymtensor", "delta": "delta", "pref": "prefactor"}[cl])
             objs.append(o)
         t.attrs.update(target=w.tup(sp["target"]), objects=tuple(objs), sympy=T("attr", sym(f"{prefix}{k}"), "sympy"),
                        _pattern={(s, ""): {w.idx(i): list(p) for i, p in d.items()} for s, d in sp["pattern"].items()})
@@ -166,8 +176,17 @@ class Probe:
             if not e.attrs["_expanded"]:
                 e.attrs.update(_expanded=True, _n=len(e.attrs["_exp_terms"]), terms=tuple(e.attrs["_exp_terms"]))
             return e
+        def expr_ctor(sx, a, kw):
+            # Expr(<number>, **assumptions): the wrapped number (start value of a sum)
+            return a[0] if a and is_num(a[0]) else NotImplemented
+
+        def add_ctor(sx, a, kw):
+            # sympy.Add(*summands)
+            if kw or not all(isinstance(x, (T, Obj)) or is_num(x) for x in a):
+                return NotImplemented
+            return t_add(*[x.term if isinstance(x, Obj) else x for x in a])
         return {"Term.pattern": pattern, "Obj.description": description, "order_substitutions": order_substitutions,
-                "subs": subs, "len": length, "Expr.expand": expand}
+                "subs": subs, "len": length, "Expr.expand": expand, "Expr": expr_ctor, "Add": add_ctor}
 
 
 def _fz(v):
@@ -420,6 +439,9 @@ def verify_partition(tl, specs, o, zero_checked=True):
         cands = candidates(specs[a], specs[b])
         if not cands:
             continue
+        israw = lambda k: isinstance(k, tuple) and k[:1] == ("raw",)
+        if any(k[:2] in ((a, b), (b, a)) and israw(k[2]) for k in pf.A) or any(j in (a, b) and israw(k) for j, k in pf.Z):
+            continue        # compared with unordered maps: reported by the `ordered` clause
         touched = [c for c in cands if (a, b, c) in pf.A or (b, c) in pf.Z]
         rev = [c for c in candidates(specs[b], specs[a]) if (b, a, c) in pf.A or (a, c) in pf.Z]
         if not touched and rev:
@@ -1049,6 +1071,54 @@ def r07e_equivariance(ctx):
     ctx.floor(rule, "renamed terms evaluated", n, 8)
 
 
+
+def r07e_sweep(ctx, cap=24):
+    """Thorough tier: every renaming of the contracted indices (space preserving, at most ``cap`` per term) of a family of
+    terms, objects reversed; the pattern of the renamed term is the renamed pattern."""
+    rule = "R07e"
+    pfn = ctx.model.fn("expr_container:Term.pattern")
+    sx = Symex(ctx.model, inline=_inline_ec, hooks={"S": _sympy_S()}, what="Term.pattern (renaming sweep)", max_paths=64,
+               obj_identity=True)
+    A, N = "antisymtensor", "nonsymtensor"
+    n = 0
+    for bks in (0, 1, -1):
+        family = [
+            ("d^ik_jl X_k Y_l", [tensor(A, "d", "ik", "jl", bks), tensor(N, "X", "k"), tensor(N, "Y", "l")], "ij"),
+            ("d^kl_mn X_km Y_ln", [tensor(A, "d", "kl", "mn", bks), tensor(N, "X", "km"), tensor(N, "Y", "ln")], ""),
+            ("d^ik_jl d^jl_mn X_m Y_n Z_k", [tensor(A, "d", "ik", "jl", bks), tensor(A, "d", "jl", "mn", bks), tensor(N, "X", "m"),
+                                              tensor(N, "Y", "n"), tensor(N, "Z", "k")], "i"),
+            ("d^ka_lb d^lb_mc X_kmc", [tensor(A, "d", "ka", "lb", bks), tensor(A, "d", "lb", "mc", bks), tensor(N, "X", "kmc")], "a"),
+            ("d^ij_kl d^kl_mn d^mn_ij", [tensor(A, "d", "ij", "kl", bks), tensor(A, "d", "kl", "mn", bks), tensor(A, "d", "mn", "ij", bks)], ""),
+            ("(d^ia_jb)^2 t^b_j", [tensor(A, "d", "ia", "jb", bks, 2), tensor("amplitude", "t1", "b", "j")], "ia"),
+        ]
+        for name, tens, target in family:
+            names = sorted({x for t in tens for x in t["upper"] + t["lower"]})
+            occ = [x for x in names if x not in target and _space(x) == "occ"]
+            virt = [x for x in names if x not in target and _space(x) == "virt"]
+
+            def pat(tl_):
+                p = _one(sx.run(pfn, lambda: dict(self=build_term(World(), tl_, tuple(target)), include_target_idx=True,
+                                                  include_exponent=True)), f"pattern of {name}")
+                return {s_.attrs["name"]: (k, list(lst)) for k, v in p.items() for s_, lst in v.items()}
+            p0 = pat([canon_tensor(t) for t in tens])
+            bad = None
+            perms = list(itertools.product(itertools.permutations(occ), itertools.permutations(virt)))
+            step = max(1, len(perms) // cap)
+            for po, pv in perms[::step]:
+                pi = dict(zip(occ, po))
+                pi.update(zip(virt, pv))
+                t2 = rename(tens, pi, list(reversed(range(len(tens)))))
+                p1 = pat(t2)
+                n += 1
+                for s_, v in p0.items():
+                    if p1.get(pi.get(s_, s_)) != v and bad is None:
+                        bad = (pi, s_, v, p1.get(pi.get(s_, s_)))
+            ctx.check(rule, pfn, bad is None, f"{name}, bra-ket symmetry {bks}: patterns follow every renaming of the contracted indices",
+                      f"{name}, bra-ket symmetry {bks}: after the renaming {bad[0]} index {bad[1]} -> {bad[0].get(bad[1], bad[1])} changes its "
+                      f"pattern from {_cut(bad[2][1])} to {_cut(bad[3][1] if bad[3] else None)}" if bad else "", key=f"sweep {name} {bks}")
+    ctx.floor(rule, "renamings evaluated in the sweep", n, 100)
+
+
 def run(ctx):
     if ctx.want("R07a") or ctx.want("R07b") or ctx.want("R07c"):
         r07abc_partition(ctx)
@@ -1058,5 +1128,7 @@ def run(ctx):
         r07e_objects(ctx)
         r07e_terms(ctx)
         r07e_equivariance(ctx)
+        if ctx.tier == "thorough":
+            r07e_sweep(ctx)
     if ctx.want("R07d") or ctx.want("R08a"):
         c08.r08a(ctx, modules={"simplify"} if ctx.tier == "quick" else {"simplify", "expr_container", "reduce_expr"})
